@@ -39,6 +39,9 @@ TNew == /\ IsEv("new")
         /\ shadow' = [firstV |-> None] /\ sunk' = 0 /\ res' = [ok |-> TRUE, variant |-> ""]
 
 Crashed(e) == e.var \in {"panic", "hang"}
+(* instances that exist only to probe totality (argument extremes, arbitrary f64 bit patterns): *)
+(* only "no panic, no hang" is judged on them                                                  *)
+Judged == "nojudge" \notin DOMAIN cfg
 
 (* ---- monitors on a frame-writing call ---- *)
 LegalSigs(c, e) ==
@@ -61,8 +64,9 @@ SinkQuiet(c, e) ==
 TWrite == /\ IsEv("call")
           /\ l' = l + 1 /\ inst' = inst /\ sk' = sk
           /\ LET e == Rec[l] IN
-             /\ Emit(LegalSigs(e, e) \cup TotalSigs(e, e) \cup SinkQuiet(e, e))
-             /\ DoWrite(e, e.ok, e.var)
+             /\ Emit(TotalSigs(e, e) \cup (IF Judged THEN LegalSigs(e, e) \cup SinkQuiet(e, e) ELSE {}))
+             /\ IF Judged THEN DoWrite(e, e.ok, e.var)
+                ELSE UNCHANGED << cfg, phase, v, a, clockV, clockA, shadow, sunk, res >>
 
 (* ---- monitors on a finished file ---- *)
 TrackCountSigs(F) ==
@@ -84,6 +88,8 @@ FileSigs(F) ==
         \cup (IF cfg.facets.timing THEN
                   C03Track(v, TV, "video") \cup (IF hasA THEN C03Track(a, F.tracks[2], "audio") ELSE {})
                   \cup C09Sigs(F)
+                  \cup C16Track(v, TV, "video") \cup (IF hasA THEN C16Track(a, F.tracks[2], "audio") ELSE {})
+                  \cup C16Movie(F)
               ELSE {})
         \cup C15Sigs(F)
         \cup (IF cfg.facets.tree THEN TreeSigsFile(F, hasA, Len(v), Len(a)) ELSE {})
@@ -130,8 +136,9 @@ SinkFinishSigs(c, e) ==
 TFin == /\ IsEv("fin")
         /\ l' = l + 1 /\ inst' = inst /\ sk' = sk
         /\ LET e == Rec[l]  c == [op |-> "fin", how |-> e.how] IN
-           /\ Emit(FinishSigs(c, e) \cup SinkFinishSigs(c, e))
-           /\ DoFinish(c, e.ok, e.var, e.sa - e.sb)
+           /\ Emit(IF Judged THEN FinishSigs(c, e) \cup SinkFinishSigs(c, e) ELSE TotalSigs(c, e))
+           /\ IF Judged THEN DoFinish(c, e.ok, e.var, e.sa - e.sb)
+              ELSE UNCHANGED << cfg, phase, v, a, clockV, clockA, shadow, sunk, res >>
 
 (* ---- comparison of two instances' outputs, logged as facts by the harness ---- *)
 (* rel: "layout" (C08, fast-start on/off), "filtered" (C05), "alias"/"mode" (C17), "meta" (C18) *)
